@@ -45,6 +45,25 @@ type typedSide struct {
 	lazyDrain func() (string, bool) // its events, and whether Events() was found closed
 	// the six constructors called once the controller is done: (name failed?) each
 	after func() string
+	// a deferred clone (CloneForFilter) and a filtered one (CloneWithFilter): refilter both with filter i of
+	// typedFilters (answer: which calls failed), and describe them (ready, content)
+	frefilter func(i int) string
+	fobs      func() string
+}
+
+// the filters the two extra clones of each side are refiltered with
+func typedFilter(i int) filter.Filter {
+	switch i % 5 {
+	case 0:
+		return filter.All()
+	case 1:
+		return filter.Null()
+	case 2:
+		return filter.Labels(map[string]string{"l": "1"})
+	case 3:
+		return filter.Labels(map[string]string{"t": "q"})
+	}
+	return filter.NSName()
 }
 
 func objsSx[T metav1.Object](l []T, err error) string {
@@ -114,7 +133,32 @@ func untypedSide(ctx context.Context, log *kv.Log, srv *kv.Server) (*typedSide, 
 		rec("CloneForFilter", err)
 		return kv.L(out...)
 	}
+	fc, err := c.CloneForFilter()
+	if err != nil {
+		return nil, err
+	}
+	fw, err := c.CloneWithFilter(typedFilter(2))
+	if err != nil {
+		return nil, err
+	}
+	flist := func(fc kcache.FilterController) string {
+		l, err := fc.Cache().List()
+		if err != nil {
+			return "err"
+		}
+		return kv.SortedObjs(l)
+	}
+	after0 := after
+	after = func() string {
+		return kv.L(after0(), kv.L("Refilter", kv.Bool(fc.Refilter(typedFilter(0)) != nil), kv.Bool(fw.Refilter(typedFilter(2)) != nil), kv.Bool(fw.Refilter(typedFilter(3)) != nil)))
+	}
 	return &typedSide{ready: c.Ready(), done: c.Done(), closefn: c.Close, mon: ml, lazyDrain: lazyDrain, after: after,
+		frefilter: func(i int) string {
+			return kv.L(kv.Bool(fc.Refilter(typedFilter(i)) != nil), kv.Bool(fw.Refilter(typedFilter(i+1)) != nil))
+		},
+		fobs: func() string {
+			return kv.L(kv.Bool(isClosed(fc.Ready())), kv.Bool(isClosed(fc.Done())), flist(fc), kv.Bool(isClosed(fw.Ready())), kv.Bool(isClosed(fw.Done())), flist(fw))
+		},
 		list: func() string {
 			l, err := c.Cache().List()
 			if err != nil {
@@ -191,7 +235,21 @@ func runTypedScenario(t *testing.T, tr *tracer, idx int, seed uint64) {
 		if err != nil {
 			t.Fatal(err)
 		}
+		fstep := 0
 		obs := func() {
+			if overflow {
+				// own kind only: the typed clones must be exactly the untyped ones
+				if fstep > 0 && r.Chance(1, 3) {
+					i := r.Intn(5)
+					if fstep == 1 && r.Chance(1, 2) {
+						i = 0 // the first Refilter of the deferred clone with a filter equal to its placeholder
+					}
+					tr.line(kv.L("tfref", fmt.Sprint(i), ty.frefilter(i), un.frefilter(i)))
+					settle(&hookN)
+				}
+				fstep++
+				tr.line(kv.L("tfobs", ty.fobs(), un.fobs()))
+			}
 			tr.line(kv.L("tobs", kv.Bool(isClosed(ty.ready)), kv.Bool(isClosed(un.ready)), kv.Bool(isClosed(ty.done)), kv.Bool(isClosed(un.done)),
 				ty.list(), un.list(), ty.drain(), un.drain(), ty.mon.take(), un.mon.take()))
 			tr.stats["obs"]++
